@@ -26,7 +26,7 @@ COQ_LABELS = ["A_values", "A_support", "A_dim", "B_values", "B_support", "B_dim"
 
 def generate(rng, tier):
     nt, nq = (60, 30) if tier == "quick" else (500, 250)
-    cases = fc.fem_mesh_cases(rng, tier, nt, nq)
+    cases = fc.fem_mesh_cases(rng, tier, nt, nq, far=True)
     # anisotropic variants on oriented manifold meshes
     na = 24 if tier == "quick" else 200
     fams = ["gridh", "ico", "octa", "cube", "torus", "ellipsoid", "delaunay"]
